@@ -181,7 +181,10 @@ theorem C20_isolation : C20_isolation_stmt :=
 
 /-- For every thread count and every assignment of the items to workers (each worker with its own
 directory, any order inside a worker): if no item kills its worker, the contributions of the run
-are, as a multiset, the solo contributions of the items. -/
+are, as a multiset, the solo contributions of the items. That every worker HAS a directory of its
+own, empty at the start and touched by nobody else, is proved for the real temp-dir tree in
+`C20_private_directory` (C20WorkDirs.lean), and `C20_every_schedule` there is this theorem without
+that assumption. -/
 theorem C20_every_assignment (env : Env) (m : GcovType) (items : List Item)
     (G : Guard env m items) (workers : List (List Item)) (hw : workers.flatten.Perm items)
     (hnp : ∀ it ∈ items, solo env m it ≠ .panic) :
